@@ -11,7 +11,7 @@ per = PROPS[prop].get("per_proc", 200)
 BIN = "/verif/.build/sim.test"
 def run(gmp, s, cnt):
     fd, out = tempfile.mkstemp(dir="/dev/shm"); os.close(fd)
-    env = dict(os.environ, GOMAXPROCS=str(gmp), VERIF_MODE="gen", VERIF_HARNESS=PROPS[prop]["harness"], VERIF_PROP=prop,
+    env = dict(os.environ, GOMAXPROCS=str(gmp), VERIF_MODE="gen", VERIF_HARNESS=PROPS[prop]["harness"], VERIF_ALT_HARNESS=PROPS[prop].get("alt_harness", ""), VERIF_PROP=prop,
                VERIF_SEED_START=str(s), VERIF_SEED_COUNT=str(cnt), VERIF_OUT=out, LOG_LEVEL="fatal")
     subprocess.run([BIN, "-test.run", "^TestWorker$", "-test.timeout", "0"], env=env, stdout=subprocess.DEVNULL, stderr=subprocess.DEVNULL)
     d = {}
